@@ -58,20 +58,13 @@ func unboundLoopClause(ct *Contract, msg string, fi *FuncInfo) (string, bool) {
 	if !strings.Contains(msg, ": spec: ") {
 		return "", false
 	}
+	// An unknown name in a loop clause: re-binding by recorded declaration position (renamed local) has already been tried
+	// while the clause was evaluated; if that did not succeed the variable was removed or the loops were restructured,
+	// and the clause is dropped like any other clause that no longer binds. ($i / $seq of a loop that is no longer a range
+	// loop are the exception: that is a change of loop form, reported as undecided.)
 	if i := strings.Index(msg, "unknown identifier "); i >= 0 {
-		// a name that no longer occurs anywhere in the function was renamed (or removed): undecided. A name that still
-		// occurs but is not in scope where the clause is evaluated means the loops were restructured: the clause is dropped.
 		name := strings.Fields(msg[i+len("unknown identifier "):])[0]
-		still := false
-		if fi != nil && fi.Decl != nil && !strings.HasPrefix(name, "$") {
-			ast.Inspect(fi.Decl, func(n ast.Node) bool {
-				if id, ok := n.(*ast.Ident); ok && id.Name == name {
-					still = true
-				}
-				return !still
-			})
-		}
-		if !still {
+		if strings.HasPrefix(name, "$") {
 			return "", false
 		}
 	}
